@@ -65,7 +65,7 @@ def gen_case(rng, thorough):
     L = [[(rng.randint(1, 3) if i == j else (rng.randint(-1, 1) if j < i else 0)) for j in range(d)] for i in range(d)]
     P = [[sum(L[i][k] * L[j][k] for k in range(d)) for j in range(d)] for i in range(d)]
     b = [rng.randint(-2, 2) for _ in range(d)]
-    eps = rng.choice([1 / 64, 1 / 16, 1 / 8, 1 / 4, 1 / 2, 3 / 4, 1.5, 2.0, 3.0])
+    eps = rng.choice([1 / 64, 1 / 16, 1 / 8, 1 / 4, 1 / 2, 3 / 4, 3 / 4, 7 / 8, 1.25, 1.5, 1.5, 2.0, 3.0])
     md = rng.choice([0, 1, 2, 3, 4, 5] + ([6] if thorough else []))
     x = [rng.randint(-8, 8) / 4 for _ in range(d)]
     r = [rng.randint(-12, 12) / 8 for _ in range(d)]
@@ -82,6 +82,25 @@ def gen_case(rng, thorough):
         if wall is not None:
             wall = x[0] + rng.choice([0.25, 0.5, 1.0, 2.0])
     return dict(d=d, P=P, b=b, eps=eps, md=md, x=x, r=r, e=e, wall=wall, wall_kind=wall_kind, us=us, int_x0=int_x0)
+
+
+def gen_tight(rng, thorough):
+    """ill-conditioned diagonal target, step size near the stability limit, tight slice: doublings then contribute
+    fewer slice points than the tree built so far (0 < n' < n) and the trajectory goes on doubling"""
+    d = rng.choice([2, 3, 4, 5])
+    diag = [1] + [rng.choice([1, 2, 4, 9, 16]) for _ in range(d - 1)]
+    P = [[diag[i] if i == j else 0 for j in range(d)] for i in range(d)]
+    b = [0] * d
+    eps = rng.choice([1 / 4, 5 / 16, 3 / 8, 7 / 16]) * (4 / max(diag) ** 0.5)
+    eps = round(eps * 64) / 64 or 1 / 64
+    md = rng.choice([3, 4, 5])
+    x = [rng.randint(-6, 6) / (4 * diag[i] ** 0.5 * 1.0) for i in range(d)]
+    x = [round(v * 16) / 16 for v in x]
+    r = [rng.randint(-12, 12) / 8 for _ in range(d)]
+    e = rng.choice([1 / 64, 1 / 32, 1 / 16, 1 / 8, 1 / 4, 1 / 2])
+    nu = 3 * (2 ** (md + 1)) + 8
+    us = [rng.randint(1, 1023) / 1024 for _ in range(nu)]
+    return dict(d=d, P=P, b=b, eps=eps, md=md, x=x, r=r, e=e, wall=None, wall_kind="nan", us=us, int_x0=False)
 
 
 def run_impl(cuqi, case, iface):
@@ -110,7 +129,20 @@ def run_impl(cuqi, case, iface):
             out["sampler"] = s
         else:
             from cuqi.sampler import NUTS
-            s = NUTS(target, x0=x0, max_depth=case["md"], adapt_step_size=case["eps"])
+            if case.get("reuse"):
+                # history: the same sampler object already ran once from another start; the start vector is then
+                # updated IN PLACE (x0[:] = ...) as users continuing a chain do
+                other = np.array(case["reuse"], dtype=float)
+                s = NUTS(target, x0=other, max_depth=case["md"], adapt_step_size=case["eps"])
+                pre = Script([[0.25] * len(other)], [0.5], [0.5] * (3 * (2 ** (case["md"] + 1)) + 8))
+                with scripted(pre):
+                    try:
+                        s.sample(2, 0)
+                    except NameError:
+                        pass
+                s.x0[:] = x0
+            else:
+                s = NUTS(target, x0=x0, max_depth=case["md"], adapt_step_size=case["eps"])
             with scripted(sc):
                 try:
                     res = s.sample(2, 0)
@@ -367,13 +399,13 @@ def oracle_u0(ctx, cuqi, rng, want):
 def run(ctx):
     cuqi = import_cuqi()
     thorough = ctx.tier == "thorough"
-    N = 4000 if thorough else 260
+    N = 6000 if thorough else 600
     rng = ctx.rng
     ctx.trusted += ["numpy float arithmetic vs exact rationals: cases whose decision margin is < 1e-7 are discarded (counted)",
                     "scripted np.random.{rand,standard_normal,exponential} (monkeypatched by the harness)"]
     ctx.assumptions += ["targets are quadratic (optionally with a NaN wall) so that the whole trajectory is exactly rational in the model"]
     oracle_integrator(ctx, cuqi, rng)
-    cases = [gen_case(rng, thorough) for _ in range(N)]
+    cases = [gen_case(rng, thorough) for _ in range(N)] + [gen_tight(rng, thorough) for _ in range(N // 5)]
     # edge stream: a uniform equal to 0.0 at the top-level acceptance (numpy's rand() is half-open [0,1))
     for c in cases[: N // 8]:
         if c["wall"] is not None:
@@ -383,11 +415,30 @@ def run(ctx):
         iface = "exp" if i % 2 == 0 else "legacy"
         if iface == "legacy" and c["eps"] in (1.0,):
             c["eps"] = 0.5
+        if iface == "legacy" and not c.get("int_x0") and c["wall"] is None and rng.random() < 0.25:
+            c["reuse"] = [v + rng.choice([-1.5, 0.75, 2.0]) for v in c["x"]]
         jobs.append((c, iface))
+    # boundary stream: the trajectory of a transition does not depend on the top-level acceptance draws, so the model's
+    # trace (position of each such draw, n, n') lets the harness put that draw just below and just above n'/n
+    traces = ctx.lean.drive(["trace" + line_of(c, 1)[4:] for c, iface in jobs])
+    nb = 0; nb_max = 2400 if thorough else 240
+    for (c, iface), tr in list(zip(jobs, traces)):
+        if tr in ("_", "bad-op", "err-nonfinite-start") or c.get("reuse"):
+            continue
+        ents = [tuple(int(v) for v in e.split(":")) for e in tr.split(",")]
+        for idx, n_, np_ in ents:
+            if not (0 < np_ < n_) or idx >= len(c["us"]) or nb >= nb_max:
+                continue
+            k = (4096 * np_) // n_
+            for kk in (k - 1 if (4096 * np_) % n_ == 0 else k, k + 1):
+                if 0 < kk < 4096:
+                    c2 = dict(c); c2["us"] = list(c["us"]); c2["us"][idx] = kk / 4096; c2["boundary"] = [idx, n_, np_]
+                    jobs.append((c2, iface)); nb += 1
+    ctx.extra_cov["boundary_variants"] = nb
     outs = ctx.lean.drive([line_of(c, 1) for c, iface in jobs])   # both interfaces carry the finiteness guard (legacy since its repair)
     skipped = 0; hist = {"acc": 0, "rej": 0, "wall": 0, "depth": {}, "nodes_max": 0, "zero_u": 0}
     for (c, iface), mo in zip(jobs, outs):
-        desc = {k: c[k] for k in ("d", "eps", "md", "x", "r", "e", "wall", "wall_kind")}; desc["iface"] = iface; desc["int_x0"] = bool(c.get("int_x0"))
+        desc = {k: c[k] for k in ("d", "eps", "md", "x", "r", "e", "wall", "wall_kind")}; desc["iface"] = iface; desc["int_x0"] = bool(c.get("int_x0")); desc["reused_sampler_from"] = c.get("reuse"); desc["acceptance_draw_moved_to_threshold"] = c.get("boundary")
         key = f"NUTS:{iface}:step"
         if mo in ("bad-op", "err-nonfinite-start"):
             ctx.note(f"model refused {desc}: {mo}"); continue
